@@ -71,14 +71,22 @@ Theorem C04_sends_gated : forall cfg p g cs,
   Forall (Forall (fun r => r <> Written false)) (gate_conns cfg p g cs).
 Proof. intros cfg p g cs Hi Hg. apply gate_conns_no_clear; assumption. Qed.
 
-(* ... and whatever Insecure says, a send made while a connection attempt runs is refused, as are
-   those made after the attempt failed (the transport still holds that connection). *)
+(* ... and whatever Insecure says, a send or a stream-management retransmission (GResend: an <a h/>
+   routed late, or SendMissingStz called by the application) made while a connection attempt runs is
+   refused, as are those made after the attempt failed (the transport still holds that connection). *)
 Theorem C04_no_send_while_connecting : forall dial w r pl g,
   exists meanwhile later,
     snd (grun g (conn_trace dial w r pl)) = meanwhile ++ later /\
-    Forall (fun x => x = Refused) meanwhile /\ length later = pl_after pl /\
+    Forall (fun x => x = Refused) meanwhile /\ length later = (pl_after pl + pl_rafter pl)%nat /\
     (r <> Ok -> Forall (fun x => x = Refused) later).
 Proof. intros. apply conn_trace_during_refused. Qed.
+
+(* No held stanza is written while the gate is closed: the retransmission passes the same gate as
+   every other write of the application (C04_sends_gated and C04_no_send_while_connecting speak about
+   both kinds of writes in whole histories; this is the single step). *)
+Theorem C04_resend_gated : forall g,
+  g_closed g = true -> gstep g GResend = (g, [Refused]) /\ gstep g GSend = (g, [Refused]).
+Proof. intros g Hc. split; [apply gstep_resend_closed; exact Hc|cbn; rewrite Hc; reflexivity]. Qed.
 
 (* WebSocket transport: authentication data is written only when the connection the opening
    handshake ENDED on is TLS (unless Insecure); a wss:// address never ends on a clear-text
@@ -104,9 +112,10 @@ Example C04_example :
   = [o false ROpen []; o false RStartTls [SHeader []; SFeatures f0]].
 Proof. reflexivity. Qed.
 
-(* a Client that lost a TLS session and reconnects; the peer withholds <proceed/>; two sends arrive
-   meanwhile (after the client's second request) and one after the attempt failed: all refused;
-   on the first connection the send after the negotiation went out inside TLS *)
+(* a Client that lost a TLS session and reconnects; the peer withholds <proceed/>; two sends and a
+   retransmission arrive meanwhile (after the client's second request), one of each after the attempt
+   failed: all refused; on the first connection the send and the retransmission after the negotiation
+   went out inside TLS *)
 Example C04_gate_example :
   let f0 := {| f_tls := TlsOffered; f_mechs := [mech_plain]; f_bind := true; f_sess := SessAbsent; f_sm := false |} in
   let f1 := {| f_tls := TlsNone; f_mechs := [mech_plain]; f_bind := true; f_sess := SessAbsent; f_sm := false |} in
@@ -114,10 +123,10 @@ Example C04_gate_example :
   let good := [SHeader []; SFeatures f0; SProceed; SHeader []; SFeatures f1; SSuccess; SHeader []; SFeatures f1;
                SIq TResult (PlBind []) false] in
   gate_conns cfg (fresh false) gate0
-    [({| k_dial := true; k_tls := true; k_script := good; k_traffic := 0 |}, {| pl_during := []; pl_after := 1%nat |});
+    [({| k_dial := true; k_tls := true; k_script := good; k_traffic := 0 |}, {| pl_during := []; pl_after := 1%nat; pl_rduring := []; pl_rafter := 1%nat |});
      ({| k_dial := true; k_tls := true; k_script := [SHeader []; SFeatures f0]; k_traffic := 0 |},
-      {| pl_during := [2; 2]%nat; pl_after := 1%nat |})]
-  = [[Written true]; [Refused; Refused; Refused]].
+      {| pl_during := [2; 2]%nat; pl_after := 1%nat; pl_rduring := [2]%nat; pl_rafter := 1%nat |})]
+  = [[Written true; Written true]; [Refused; Refused; Refused; Refused; Refused]].
 Proof. reflexivity. Qed.
 
 Example C04_ws_example :
@@ -131,6 +140,7 @@ Print Assumptions C04_no_unverified.
 Print Assumptions C04_starttls_replies.
 Print Assumptions C04_sends_gated.
 Print Assumptions C04_no_send_while_connecting.
+Print Assumptions C04_resend_gated.
 Print Assumptions C04_ws_auth_only_over_tls.
 Print Assumptions C04_wss_never_downgraded.
 Print Assumptions C04_ws_redirects_never_leave_tls.
